@@ -401,10 +401,10 @@ func (w *c18World) describe(cs exported.ClientState, ks exported.ConsensusState)
 
 func (w *c18World) describeKS(ks exported.ConsensusState) string {
 	if ks == nil {
-		return "nil 0 -"
+		return "nil 0 - 1"
 	}
 	ty, ts := c18TyOfKS(ks)
-	return fmt.Sprintf("%s %d %s", ty, ts, c18Dig(clienttypes.MustMarshalConsensusState(w.cdc, ks)))
+	return fmt.Sprintf("%s %d %s %d", ty, ts, c18Dig(clienttypes.MustMarshalConsensusState(w.cdc, ks)), c18b(ks.ValidateBasic() == nil))
 }
 
 // ---- realisation of symbolic descriptors --------------------------------------------------------
@@ -503,6 +503,95 @@ func (w *c18World) realiseCS(desc string) exported.ClientState {
 	case "tss!inv":
 		return &tsstypes.ClientState{TssAddress: w.addr["bad"], Pubkey: []byte("pk"), Threshold: 1}
 	}
+	if i := strings.Index(desc, "!"); i > 0 {
+		return w.invalidCS(desc[:i], desc[i+1:])
+	}
+	return nil
+}
+
+// client states that are well formed except for ONE thing the type's Validate() excludes
+var c18InvalidCS = []string{
+	"tm!chain", "tm!tl0", "tm!tlden", "tm!tlbig", "tm!inv", "tm!ubd0", "tm!drift0", "tm!h0", "tm!tpge", "tm!specs",
+	"bscr!epoch0", "bscr!chainbig", "bscr!h0", "bscr!extra", "bscr!mix", "bscr!uncle", "bscr!diff0",
+	"eth!h0", "eth!inv", "eth!gascap", "eth!diff0", "eth!bloom",
+	"tss!inv", "tss!empty",
+}
+
+// … and client states that pass Validate() but which the type's Initialize / UpgradeState must refuse
+var c18UninstallableCS = []string{"bsc!epoch", "bsc!seal", "bsc!noval", "bscr!stale"}
+
+func (w *c18World) invalidCS(base, tag string) exported.ClientState {
+	switch base {
+	case "tm":
+		c := w.realiseCS("tm").(*tmtypes.ClientState)
+		switch tag {
+		case "chain":
+			c.ChainId = "   "
+		case "tl0":
+			c.TrustLevel = tmtypes.Fraction{Numerator: 0, Denominator: 3}
+		case "tlden":
+			c.TrustLevel = tmtypes.Fraction{Numerator: 1, Denominator: 0}
+		case "tlbig":
+			c.TrustLevel = tmtypes.Fraction{Numerator: 1 << 63, Denominator: 1 << 63}
+		case "ubd0":
+			c.UnbondingPeriod = 0
+		case "drift0":
+			c.MaxClockDrift = 0
+		case "h0":
+			c.LatestHeight.RevisionHeight = 0
+		case "tpge":
+			c.TrustingPeriod = c.UnbondingPeriod
+		case "specs":
+			c.ProofSpecs = nil
+		case "spec0":
+			c.ProofSpecs = append(c.ProofSpecs[:0:0], nil)
+		default:
+			return nil
+		}
+		return c
+	case "bscr":
+		c := w.bscG.state(20)
+		h := c.Header
+		switch tag {
+		case "epoch0":
+			c.Epoch = 0
+		case "chainbig":
+			c.ChainId = 1 << 63
+		case "h0":
+			h.Height.RevisionHeight = 0
+		case "extra":
+			h.Extra = h.Extra[:40]
+		case "mix":
+			h.MixDigest = append(make([]byte, 31), 1)
+		case "uncle":
+			u := append([]byte{}, h.UncleHash...)
+			u[0] ^= 1
+			h.UncleHash = u
+		case "diff0":
+			h.Difficulty = []byte{0}
+		default:
+			return nil
+		}
+		c.Header = h
+		return c
+	case "eth":
+		h := w.ethHdr[0].ToHeader()
+		switch tag {
+		case "gascap":
+			h.GasLimit = 1 << 63
+		case "diff0":
+			h.Difficulty = []byte{}
+		case "bloom":
+			h.Bloom = make([]byte, 257)
+		default:
+			return nil
+		}
+		return w.ethState(h, 4)
+	case "tss":
+		if tag == "empty" {
+			return &tsstypes.ClientState{TssAddress: "", Pubkey: []byte("pk"), Threshold: 1}
+		}
+	}
 	return nil
 }
 
@@ -514,6 +603,21 @@ func (w *c18World) realiseKS(desc string) exported.ConsensusState {
 			w.tmSnap = &hd
 		}
 		return w.tmSnap.ConsensusState()
+	case "tm!root", "tm!nvh", "tm!ts": // Tendermint consensus states failing ValidateBasic
+		if w.tmSnap == nil {
+			hd := *w.chainB.LastHeader
+			w.tmSnap = &hd
+		}
+		k := w.tmSnap.ConsensusState()
+		switch desc {
+		case "tm!root":
+			k.Root = nil
+		case "tm!nvh":
+			k.NextValidatorsHash = []byte{1, 2, 3}
+		default:
+			k.Timestamp = time.Unix(0, 0).UTC()
+		}
+		return k
 	case "tmr0", "tmr1":
 		return w.tmR.hdr[c18TmrFirst+3*int64(desc[3]-'0')].ConsensusState()
 	case "bscr0", "bscr1", "bscr2":
@@ -719,7 +823,12 @@ func (w *c18World) apply(r *Rec, op string) (string, string) {
 		before := w.dumpRelayers(w.ctx) + "|" + w.dump(w.ctx)
 		res := w.govExec(p)
 		after := w.dumpRelayers(w.ctx) + "|" + w.dump(w.ctx)
-		r.Count("relayer." + res)
+		if res == "rej" {
+			r.Count("relayer.rejected-at-submission")
+			r.Count("relayer.err")
+		} else {
+			r.Count("relayer." + res)
+		}
 		if res != "ok" && before != after {
 			w.find(r, "C18:failed-proposal-changed-store:relayer", "a failed RegisterRelayer proposal changed the store", after, before)
 		}
@@ -785,9 +894,15 @@ func c18Name(s string) string {
 
 // govExec executes a proposal content exactly as x/gov does: ValidateBasic at submission, then the routed handler on
 // a cache context which is written back only if the handler returned nil (gov.EndBlocker; there is no recover there).
+// "rej" = refused at submission (content.ValidateBasic(), as MsgSubmitProposal.ValidateBasic calls it), "err" = refused
+// by the routed handler, "panic" at either stage
 func (w *c18World) govExec(c govtypes.Content) string {
-	if err := c.ValidateBasic(); err != nil {
-		return "err"
+	var verr error
+	if pan, _ := safely(func() { verr = c.ValidateBasic() }); pan {
+		return "panic"
+	}
+	if verr != nil {
+		return "rej"
 	}
 	cctx, write := w.ctx.CacheContext()
 	var err error
@@ -814,6 +929,25 @@ func (w *c18World) proposal(r *Rec, f []string) (string, string) {
 	if ks != nil {
 		ksAny, _ = clienttypes.PackConsensusState(ks)
 	}
+	// an Any of a type the interface registry does not know (neither state unpacks)
+	if f[2] == "unk" {
+		csAny = &codectypes.Any{TypeUrl: "/c18.UnknownClientState", Value: []byte{0x0a, 0x01, 0x41}}
+	}
+	if f[3] == "unk" {
+		ksAny = &codectypes.Any{TypeUrl: "/c18.UnknownConsensusState", Value: []byte{0x0a, 0x01, 0x42}}
+	}
+	// invalid BY CONSTRUCTION: a descriptor marked `!`, a state that does not unpack, or a consensus state of another
+	// type than a non-TSS client state — such a proposal must fail at one of the two stages and change nothing
+	ksTy0, _ := c18TyOfKS(ks)
+	invalidBC := strings.Contains(f[2], "!") || strings.Contains(f[3], "!") || cs == nil || ks == nil ||
+		(c18TyOfCS(cs) != "tss" && ksTy0 != c18TyOfCS(cs))
+	statusOf := func() string {
+		if c, ok := ck.GetClientState(w.ctx, name); ok {
+			return string(c.Status(w.ctx, ck.ClientStore(w.ctx, name), w.cdc))
+		}
+		return "none"
+	}
+	statusBefore := statusOf()
 	var content govtypes.Content
 	switch kind {
 	case "create":
@@ -833,13 +967,35 @@ func (w *c18World) proposal(r *Rec, f []string) (string, string) {
 	if existed {
 		oldTy = c18TyOfCS(oldCS)
 	}
-	res := w.govExec(content)
+	out := w.govExec(content)
+	res := out // counters and the oracle treat both refusal stages as "err"; the observation keeps the stage
+	if out == "rej" {
+		res = "err"
+		r.Count(kind + ".rejected-at-submission")
+	} else if out == "err" {
+		r.Count(kind + ".rejected-by-handler")
+	}
 	after := w.dump(w.ctx)
 	pair := kind + "." + oldTy + ">" + d.ty
 	r.Count(kind + "." + res)
 	r.Count("pair." + pair + "." + res)
 	if kind == "create" && name == w.self {
 		r.Count("create.own-name." + res)
+	}
+	if invalidBC {
+		r.Count(kind + ".invalid." + out)
+		r.Count("invalid." + kind + "." + oldTy + ">" + f[2] + "/" + f[3] + "." + out)
+		if res == "ok" && !strings.Contains(f[2], "!") && strings.HasPrefix(f[3], "tm!") && c18TyOfCS(cs) == "tm" {
+			// the only invalidity is a Tendermint consensus state failing its own ValidateBasic (repaired in fafdbf1)
+			w.find(r, "C18:invalid-tm-consensus-state-accepted:"+kind, fmt.Sprintf("a %s proposal whose Tendermint consensus state fails ConsensusState.ValidateBasic() (%s) is accepted: no proposal's ValidateBasic looks at the consensus state and Initialize / UpgradeState only check its type; the client can never verify a proof and the exported client genesis fails validation", kind, f[3]), "ok", "rejected at submission")
+		} else if res == "ok" {
+			w.find(r, "C18:invalid-proposal-accepted:"+kind+":"+f[2]+"/"+f[3], fmt.Sprintf("a %s proposal with invalid content (client state %s, consensus state %s) passed both the submission check and the handler; the previous client (%s) was replaced / a client was installed", kind, f[2], f[3], oldTy), "ok", "rejected at submission or by the handler, nothing changed")
+		}
+	}
+	if res != "ok" {
+		if sa := statusOf(); sa != statusBefore {
+			w.find(r, "C18:failed-proposal-changed-status:"+kind, "a failed "+kind+" proposal changed the Status() of the existing client", sa, statusBefore)
+		}
 	}
 	// mixed proposals: the client state and the consensus state are of different client types
 	if mixKs, _ := c18TyOfKS(ks); cs != nil && ks != nil && mixKs != d.ty {
@@ -940,7 +1096,7 @@ func (w *c18World) proposal(r *Rec, f []string) (string, string) {
 			w.find(r, "C18:accepted-mismatched-consensus-type:"+kind+"."+d.ty+"<"+ksTy, "accepted a consensus state of another client type (the client can never become Active)", "ok", "error")
 		}
 	}
-	return conc, res + " D:" + after
+	return conc, out + " D:" + after
 }
 
 func (w *c18World) verify(r *Rec, f []string) (string, string) {
@@ -1177,7 +1333,7 @@ func (w *c18World) update(r *Rec, f []string) (string, string) {
 
 	// abstract part (header verification and the light client's own book-keeping): dry run of the installed client's
 	// real CheckHeaderAndUpdateState on a throw-away branch; its verdict, resulting states and store delta go on the line
-	dry, newCS, newKS, delta := false, "nil 0 0 - 0 0 0 0 - - -", "nil 0 -", []string{}
+	dry, newCS, newKS, delta := false, "nil 0 0 - 0 0 0 0 - - -", "nil 0 - 1", []string{}
 	if found {
 		dctx, _ := w.ctx.CacheContext()
 		dst := ck.ClientStore(dctx, n)
@@ -1457,6 +1613,85 @@ func c18MixedMatrix() [][]string {
 	return out
 }
 
+// valid consensus-state descriptor going with an (invalid) client-state descriptor
+func c18KSForDesc(cs string) string {
+	switch {
+	case strings.HasPrefix(cs, "tm"):
+		return "tm"
+	case strings.HasPrefix(cs, "bscr"):
+		return "bscr0"
+	case strings.HasPrefix(cs, "bsc"):
+		return "bsc0"
+	case strings.HasPrefix(cs, "eth"):
+		return "eth0"
+	}
+	return "tss"
+}
+
+// the invalid matrix: against each of the 4 existing client types (which has a history: one update), every kind of
+// proposal with every individually invalid client state, every uninstallable one, invalid / nil / unknown / foreign
+// consensus states — all in ONE history per (existing type, kind), because each must fail and change nothing; the
+// history ends by using the untouched client (status, update, proof)
+func c18InvalidMatrix() [][]string {
+	var out [][]string
+	for _, a := range c18Types {
+		ca, ka := c18CSOf(a, false)
+		who := "r0"
+		if a == "tss" {
+			who = "tssA"
+		}
+		for _, kind := range []string{"create", "upgrade", "toggle"} {
+			h := []string{"reset", "relayer r0 N0 N1", "relayer tssA N0 N1", "relayer tssB N0 N1", "time " + c18TimeFor(ca) + " 1", "create N0 " + ca + " " + ka,
+				"time " + c18TimeFor(ca) + " 200"}
+			if a == "tss" {
+				h = append(h, "update N0 tssA tss:A")
+			} else {
+				h = append(h, "update N0 r0 next")
+			}
+			h = append(h, "status N0")
+			targets := []string{"N0"}
+			if kind == "create" {
+				targets = []string{"N0", "N1"}
+			}
+			for _, tgt := range targets {
+				for _, cs := range append(append([]string{}, c18InvalidCS...), c18UninstallableCS...) {
+					h = append(h, kind+" "+tgt+" "+cs+" "+c18KSForDesc(cs))
+				}
+				for _, b := range c18Types { // valid client state of every type with an unusable consensus state
+					cb, kb := c18CSOf(b, a == b)
+					for _, ks := range []string{"nil", "unk"} {
+						h = append(h, kind+" "+tgt+" "+cb+" "+ks)
+					}
+					h = append(h, kind+" "+tgt+" nil "+kb, kind+" "+tgt+" unk "+kb)
+					if b != "tss" {
+						for _, c := range c18Types {
+							if c != b {
+								_, kc := c18CSOf(c, false)
+								h = append(h, kind+" "+tgt+" "+cb+" "+kc)
+							}
+						}
+					}
+				}
+				for _, ks := range []string{"tm!root", "tm!nvh", "tm!ts"} { // Tendermint consensus states failing ValidateBasic
+					h = append(h, kind+" "+tgt+" tm "+ks)
+				}
+				h = append(h, "status "+tgt)
+			}
+			h = append(h, "status N0", "update N0 "+who+" "+map[bool]string{true: "tss:B", false: "next"}[a == "tss"], "verify N0 latest", "status N0")
+			out = append(out, h)
+		}
+	}
+	// Tendermint consensus states failing their own ValidateBasic (empty root, malformed next-validators hash, zero
+	// time), also each in a short history of its own (C18:invalid-tm-consensus-state-accepted — repaired in /repo fafdbf1)
+	for _, ks := range []string{"tm!root", "tm!nvh", "tm!ts"} {
+		rel := []string{"reset", "relayer r0 N0 N1", "time tm 1"}
+		out = append(out, append(append([]string{}, rel...), "create N1 tm "+ks, "status N1"))
+		out = append(out, append(append([]string{}, rel...), "create N0 tm tm", "time tm 1", "upgrade N0 tm "+ks, "status N0"))
+		out = append(out, append(append([]string{}, rel...), "time bscr0 1", "create N0 bscr0 bscr0", "time tm 1", "toggle N0 tm "+ks, "status N0"))
+	}
+	return out
+}
+
 func c18Matrix(pow bool) [][]string {
 	var out [][]string
 	rel := []string{"reset", "relayer r0 N0 N1", "relayer tssA N0", "relayer tssB N0"}
@@ -1524,7 +1759,7 @@ func (w *c18World) randomHistory(r *Rec) []string {
 	names := []string{"N0", "N0", "N0", "N1", "N2", "Nmin", "Nmax"}
 	bad := []string{"Nshort", "Nslash", "Nlong", "Nspace", "Nblank", "Nself", "Nself"}
 	goodCS := []string{"tm", "tmd", "tmr0", "tmr1", "bsc0", "bsc1", "bscr0", "bscr1", "bscr2", "eth0", "eth1", "tssA", "tssB"}
-	badCS := []string{"tm!inv", "bsc!epoch", "bsc!seal", "bsc!inv", "bsc!h0", "bsc!noval", "bscr!stale", "eth!inv", "eth!h0", "tss!inv", "nil"}
+	badCS := []string{"tm!inv", "bsc!epoch", "bsc!seal", "bsc!inv", "bsc!h0", "bsc!noval", "bscr!stale", "tm!h0", "tm!tl0", "tm!specs", "bscr!epoch0", "bscr!chainbig", "bscr!mix", "eth!gascap", "eth!diff0", "tss!empty", "unk", "eth!inv", "eth!h0", "tss!inv", "nil"}
 	allKS := []string{"tm", "bsc0", "bsc1", "bscr0", "bscr1", "eth0", "eth1", "tss", "nil"}
 	ksFor := func(cs string) string {
 		switch {
@@ -1692,6 +1927,9 @@ func TestC18(t *testing.T) {
 			run(h)
 		}
 		for _, h := range c18MixedMatrix() {
+			run(h)
+		}
+		for _, h := range c18InvalidMatrix() {
 			run(h)
 		}
 	}
